@@ -135,14 +135,12 @@ func runFailover(threshold, n int) string {
 		ask(10+i, name)
 		time.Sleep(20 * time.Millisecond)
 	}
-	// the election runs in the background
-	final := "fail"
-	for i := 0; i < 20; i++ {
-		if final = ask(100+i, "z"+strconv.Itoa(i)); final == "B" {
-			break
-		}
+	// the election runs in the background: give it time WITHOUT sending further queries (more
+	// failing queries would reach the threshold by themselves), then ask once
+	for i := 0; i < 40 && atomic.LoadInt32(&changed) == 0; i++ {
 		time.Sleep(50 * time.Millisecond)
 	}
+	final := ask(100, "z")
 	return fmt.Sprintf("final=%s changed=%d", final, atomic.LoadInt32(&changed))
 }
 
